@@ -20,7 +20,15 @@ TRUSTED = [
     "exercised by the correspondence (real writer -> real readers, utf-8 / latin-1 / cp1251), not proved",
     "the line ends of the guesser's reader are probed from the running interpreter (str.splitlines), check_valid's rejected "
     "characters by calling it; the way OmenScorer opens its files is read from the source by ast (harness/consts/omen_level.py)",
-    "levels produced by smoothing (floor(-ln(..))) are taken as given",
+    "math.log and math.floor of smoothing._calc_level are oracles (parameters lg, fl of the model and of the translated "
+    "functions): nothing is assumed about them, the clamp to 0..10 is proved for every choice",
+    "harness/translate_omen_trainer.py: fail-closed ast translator of smoothing.py (_calc_level, smooth_grammar, "
+    "smooth_length), AlphabetLookup (__init__, is_in_alphabet, parse, apply_smoothing), omen_file_output.py "
+    "(_save_alphabet, save_omen_rules_to_disk) and AlphabetGenerator into gen/OmenTrainer*_gen.v (accepted subset and the "
+    "representation of Python values in its header: mutable objects as values named by their root, sub-objects as paths, "
+    "int / (level, count) leaves as a sum type, exceptions as values, the directory as a map path -> text, _save_config / "
+    "str(float) as oracles) and the runtime OmenTrainer.v / OmenTrainerRt.v it targets; ttab_of (the view of a smoothed "
+    "AlphabetLookup object as the table record the older translator and the models use) is part of that reading",
     "harness/translate_omen_level.py: fail-closed ast translator of find_omen_level and OmenScorer.parse into "
     "gen/OmenLevel_gen.v (accepted subset and the representation of Python values - ints as Z, strings as code points, "
     "the trainer / scorer objects as the model's records, dict subscripts as the model's lookups with None = KeyError, "
@@ -298,6 +306,8 @@ def run(ctx):
         shards.append(("s%04d" % (s // per), "\n".join(src)))
     import omen_gen_tie
     corr = [omen_gen_tie.status("omen-level:translator-tie", "gen/OmenLevel_gen.v", "theories/OmenLevelGenProofs.v")]
+    import omen_trainer_tie
+    corr += omen_trainer_tie.obligations("C11")
     if missing_consts:
         corr.append(("omen-level:constants", False, "constants missing from gen/Consts_gen.v (extractor plugin failed): %s; "
                      "no correspondence case could be written" % sorted(missing_consts)))
